@@ -92,5 +92,6 @@ def unbuild(p):
 out = []
 for expr, family, params, nt in entries:
     out.append(dict(expr=expr, family=family, params=params, label=nt.label, arity=nt.arity,
+                    cls=type(nt).__module__ + '.' + type(nt).__qualname__, plain=(type(nt) is P.Notation),
                     definition=PC.show(unbuild(nt.definition)), format_str=nt.format_str))
 json.dump(dict(symtab=symtab, notations=out), sys.stdout)
